@@ -291,8 +291,11 @@ func (c *Collection) PullID(ctx context.Context, id string, opts ...ReadOption) 
 	}
 
 	send := make(chan *ValueChange)
+	// the underlying Pull must end when we do (i.e. when the item is removed), otherwise nobody drains it
+	ctx, stop := context.WithCancel(ctx)
 	go func() {
 		defer close(send)
+		defer stop()
 		for change := range c.Pull(ctx, opts...) {
 			if change.Id != id {
 				continue
